@@ -32,13 +32,15 @@ class C04(VectorEngine):
     assumptions = ["files are served by the executor's in-memory loader, which walks the base directory and then the load paths for each name exactly like FsLoader::find_file",
                    "for the subdirectory case the load under test is written in sub/mid.scss, reached from main.scss"]
     mc_runs = {
-        "quick": [("MC_Resolve", "MC_Resolve_plain.cfg", {"workers": 2}), ("MC_Resolve", "MC_Resolve_dir.cfg", {"workers": 6}), ("MC_Resolve", "MC_Resolve_spread.cfg", {"workers": 6})],
-        "thorough": [("MC_Resolve", "MC_Resolve_plain.cfg", {"workers": 2}), ("MC_Resolve", "MC_Resolve_dir.cfg", {}), ("MC_Resolve", "MC_Resolve_spread3.cfg", {"timeout": 3000})],
+        "quick": [("MC_Resolve", "MC_Resolve_seq.cfg", {"workers": 4}), ("MC_Resolve", "MC_Resolve_plain.cfg", {"workers": 2}), ("MC_Resolve", "MC_Resolve_dir.cfg", {"workers": 6}), ("MC_Resolve", "MC_Resolve_spread.cfg", {"workers": 6})],
+        "thorough": [("MC_Resolve", "MC_Resolve_seq.cfg", {"workers": 4}), ("MC_Resolve", "MC_Resolve_plain.cfg", {"workers": 2}), ("MC_Resolve", "MC_Resolve_dir.cfg", {}), ("MC_Resolve", "MC_Resolve_spread3.cfg", {"timeout": 3000})],
     }
     random_n = {"quick": 1500, "thorough": 30000}
 
     def strip(self, vec):
         d = {"kind": vec["kind"], "where": vec["where"], "present": sorted(vec["present"], key=lambda p: (p["loc"], p["idx"]))}
+        if vec.get("pre", "none") != "none":
+            d["pre"] = vec["pre"]
         if "cls" in vec:
             d["cls"] = vec["cls"]
         return d
@@ -49,12 +51,50 @@ class C04(VectorEngine):
         files = {}
         for p in inp["present"]:
             files[PREFIX[where][p["loc"]] + names[p["idx"] - 1]] = ".w { id: %s-%d }\n" % (p["loc"], p["idx"])
+        pre = inp.get("pre", "none")
+        prestmt = ""
+        if pre != "none":
+            # a preceding load of another url, satisfied in the given location only
+            files[PREFIX[where][pre] + "w.scss"] = ".pre { k: v }\n"
+            prestmt = stmt(kind).replace('"u"', '"w"') + "\n"
         if where == "root":
-            files["main.scss"] = stmt(kind, inp.get("cls", "bare")) + "\n"
+            files["main.scss"] = prestmt + stmt(kind, inp.get("cls", "bare")) + "\n"
         else:
             files["main.scss"] = ('@import "sub/mid";' if kind == "import" else '@use "sub/mid";') + "\n"
             files["sub/mid.scss"] = stmt(kind, inp.get("cls", "bare")) + "\n"
         return dict(files=files, entry="main.scss", load_paths=["lp1", "lp2"])
+
+    # every layout is resolved twice: through the in-memory loader and through the real FsLoader on disk
+    def flow_a(self, ctx, vecs, tag):
+        super().flow_a(ctx, vecs, tag)
+        import os, shutil
+        root = os.path.join(ctx.work, "fs-" + tag.replace("/", "_"))
+        cases = []
+        step = 1 if ctx.tier == "thorough" or len(vecs) < 4000 else 2
+        sel = list(range(0, len(vecs), step))
+        for i in sel:
+            inp = self.strip(vecs[i])
+            c = self.render(inp)
+            d = os.path.join(root, str(i))
+            for name, text in c["files"].items():
+                p = os.path.join(d, name)
+                os.makedirs(os.path.dirname(p), exist_ok=True)
+                with open(p, "w") as f:
+                    f.write(text)
+            for lp in ("lp1", "lp2"):
+                os.makedirs(os.path.join(d, lp), exist_ok=True)
+            cases.append(dict(id=f"{tag}-fs#{i}", api="fs_transform", path=os.path.join(d, "main.scss"),
+                              load_paths=[os.path.join(d, "lp1"), os.path.join(d, "lp2")]))
+        res = ctx.execute(cases, **self.exec_kw)
+        for c, i in zip(cases, sel):
+            v = vecs[i]
+            inp = self.strip(v)
+            obs = self.project(inp, res[c["id"]])
+            ctx.note_case(["fs", self.key(inp)], nontrivial=self.nontrivial(v))
+            ctx.traces += 1
+            ctx.classify(case_id=c["id"], inp=dict(inp, loader="FsLoader"), rendered=dict(c, files=self.render(inp)["files"]), expect=v["expect"], obs=obs,
+                         devs=v.get("dev") or {}, spec_op=self.spec_op, raw=res[c["id"]], dev_matches=self.dev_matches)
+        shutil.rmtree(root, ignore_errors=True)
 
     def project(self, inp, res):
         if res.get("status") == "ok":
@@ -75,7 +115,7 @@ class C04(VectorEngine):
         return len(vec["present"]) > 0 or "cls" in vec
 
     def key(self, inp):
-        return [inp["kind"], inp["where"], inp.get("cls"), [(p["loc"], p["idx"]) for p in inp["present"]]]
+        return [inp["kind"], inp["where"], inp.get("cls"), inp.get("pre"), [(p["loc"], p["idx"]) for p in inp["present"]]]
 
     def random_inputs(self, ctx, n):
         rng = ctx.rng
